@@ -48,7 +48,7 @@ inline std::string show_(const std::string &v, prio<9>) { return "\"" + v + "\""
 template <typename T> std::string show(const T &v);
 template <typename T> auto show_(const T &v, prio<5>) -> decltype(v.vid_, std::string()) {
   return "obj#" + std::to_string(v.vid_); }
-template <typename T> auto show_(const T &v, prio<4>)
+template <typename T> auto show_(const T &v, prio<9>)
     -> typename std::enable_if<std::is_enum<T>::value, std::string>::type {
   return "enum:" + std::to_string((int)v); }
 template <typename T> std::string show_(const std::shared_ptr<T> &p, prio<6>) {
@@ -82,7 +82,12 @@ template <typename T> struct ret<std::shared_ptr<T>> {
 template <typename T> struct ret<T *> {
   static T *get(unsigned) { return new typename std::remove_const<T>::type(); } };
 template <typename T> struct ret<T &> {
-  static T &get(unsigned) { static typename std::remove_const<T>::type t{}; return t; } };
+  static T &get(unsigned h) {
+    typedef typename std::remove_const<T>::type U;
+    static std::map<unsigned, std::unique_ptr<U>> m;
+    auto it = m.find(h);
+    if (it == m.end()) it = m.emplace(h, std::unique_ptr<U>(new U(ret<U>::get(h)))).first;
+    return *it->second; } };
 template <typename A, typename B> struct ret<std::pair<A, B>> {
   static std::pair<A, B> get(unsigned h) { return std::pair<A, B>(ret<A>::get(h), ret<B>::get(h + 1)); } };
 }  // namespace vtrace
@@ -156,12 +161,17 @@ class Emitter:
     def args_decl(self, args, this):
         return ', '.join('%s %s' % (cpp_type(a.type, this), a.name) for a in args)
 
-    def rec(self, entity, args, self_expr='0', targs: Sequence[str] = ()):
+    def rec(self, entity, args, self_expr='0', targs: Sequence[str] = (), prefix_expr=None):
+        """entity: literal name; prefix_expr: C++ expression (std::string) to use instead of the
+        literal class prefix (class templates spell their arguments at run time)."""
         shown = ', '.join('vtrace::show(%s)' % a.name for a in args)
-        ent = '"%s"' % entity
+        if prefix_expr is not None:
+            ent = '%s + std::string("::%s")' % (prefix_expr, entity.rsplit('::', 1)[-1])
+        else:
+            ent = 'std::string("%s")' % entity
         if targs:
-            ent = 'std::string("%s<") + %s + ">"' % (entity, ' + "," + '.join(
-                'vtrace::tname<%s>::get()' % t for t in targs))
+            ent += ' + "<" + %s + ">"' % ' + "," + '.join(
+                'vtrace::tname<%s>::get()' % t for t in targs)
         return 'vtrace::rec(%s, "%s", %s, {%s});' % (ent, sig_of(args), self_expr, shown)
 
     def ret_stmt(self, r: M.Ret, entity, this):
@@ -200,6 +210,10 @@ class Emitter:
         self.w('  %s &operator=(const %s &) { return *this; }' % (c.name, c.name))
         self.w('  %s~%s() { --vtrace::live(); }' % ('virtual ' if c.virtual else '', c.name))
         ent = qual
+        px = None
+        if c.template is not None:
+            px = 'std::string("%s<") + %s + ">"' % (qual, ' + "," + '.join(
+                'vtrace::tname<%s>::get()' % n for n in c.template.names()))
         for m in c.members:
             if isinstance(m, M.Enum):
                 self.emit_enum(m, '  ')
@@ -209,14 +223,14 @@ class Emitter:
                 targs = m.template.names() if m.template else ()
                 self.w('  %s%s(%s) : vid_(vtrace::next_id()) { ++vtrace::live(); %s }' % (
                     th, c.name, self.args_decl(m.args, this),
-                    self.rec(ent + '::' + c.name, m.args, 'vid_', targs)))
+                    self.rec(ent + '::' + c.name, m.args, 'vid_', targs, px)))
             elif isinstance(m, M.Method):
                 th = self.template_head(m.template)
                 targs = m.template.names() if m.template else ()
                 e = ent + '::' + m.name
                 self.w('  %s%s %s(%s)%s { %s%s }' % (
                     th, ret_cpp(m.ret, this), m.name, self.args_decl(m.args, this),
-                    ' const' if m.const else '', self.rec(e, m.args, 'vid_', targs),
+                    ' const' if m.const else '', self.rec(e, m.args, 'vid_', targs, px),
                     self.ret_stmt(m.ret, e, this)))
             elif isinstance(m, M.Static):
                 th = self.template_head(m.template)
@@ -224,12 +238,12 @@ class Emitter:
                 e = ent + '::' + m.name
                 self.w('  %sstatic %s %s(%s) { %s%s }' % (
                     th, ret_cpp(m.ret, this), m.name, self.args_decl(m.args, this),
-                    self.rec(e, m.args, '0', targs), self.ret_stmt(m.ret, e, this)))
+                    self.rec(e, m.args, '0', targs, px), self.ret_stmt(m.ret, e, this)))
             elif isinstance(m, M.Operator):
                 e = ent + '::operator' + m.op
                 self.w('  %s operator%s(%s)%s { %s%s }' % (
                     ret_cpp(m.ret, this), m.op, self.args_decl(m.args, this),
-                    ' const' if m.const else '', self.rec(e, m.args, 'vid_'),
+                    ' const' if m.const else '', self.rec(e, m.args, 'vid_', (), px),
                     self.ret_stmt(m.ret, e, this)))
             elif isinstance(m, M.Prop):
                 t = cpp_type(m.type, this)
